@@ -163,31 +163,6 @@ Definition send_frame (f : frame) (s : ep) : ep :=
 
 Definition send_msg (m : msg) (s : ep) : ep := send_frame (FMsg m) s.
 
-(** [ContactHandler.close] / [Messenger.close] / [Connection.close] *)
-Definition do_close (s : ep) : ep :=
-  let s := s <| ka_due := None |> <| idle_due := None |> in
-  if closed s then s
-  else
-    let s := if io_set s then s <| io_set := false |> <| n_io := pred (n_io s) |> else s in
-    emit EClosed (s <| closed := true |>).
-
-Definition pq_trigger (s : ep) : ep :=
-  if pq_set s then s else s <| pq_set := true |> <| n_pq := S (n_pq s) |>.
-
-(** [ContactHandler.send_buffer_decreased] *)
-Definition send_buffer_decreased (buf_use : N) (s : ep) : ep :=
-  if buf_use <? 5 * seg_size s then pq_trigger s else s.
-
-(** [ContactHandler.is_sess_idle] *)
-Definition is_sess_idle (s : ep) : bool :=
-  is_nil (rx_buf s) && is_nil (msg_tx s)
-  && match rx_tmp s with None => true | Some _ => false end
-  && match tx_tmp s with None => true | Some _ => false end
-  && is_nil (pend_start s) && is_nil (pend_ack s).
-
-Definition check_sess_term (s : ep) : ep :=
-  if in_term s && is_sess_idle s then do_close s else s.
-
 (** ** Dictionary helpers (Python dicts keep insertion order) *)
 
 Fixpoint dict_get {V} (k : N) (d : list (N * V)) : option V :=
@@ -207,6 +182,39 @@ Fixpoint dict_del {V} (k : N) (d : list (N * V)) : list (N * V) :=
   | [] => []
   | (k', v') :: r => if k' =? k then r else (k', v') :: dict_del k r
   end.
+
+(** [ContactHandler.close] / [Messenger.close] / [Connection.close] *)
+Definition flush_pend_start (s : ep) : ep :=
+  fold_left (fun s it =>
+               emit (ESig SigSendFinished [PStrNum (fst it); PInt 0; PStr RES_TERMINATING])
+                    (s <| tx_map := dict_del (fst it) (tx_map s) |>))
+            (pend_start s) (s <| pend_start := [] |>).
+
+Definition do_close (s : ep) : ep :=
+  let s := s <| ka_due := None |> <| idle_due := None |> in
+  if closed s then s
+  else
+    (* ContactHandler.close: transfers never started are reported before the connection goes down *)
+    let s := flush_pend_start s in
+    let s := if io_set s then s <| io_set := false |> <| n_io := pred (n_io s) |> else s in
+    emit EClosed (s <| closed := true |>).
+
+Definition pq_trigger (s : ep) : ep :=
+  if pq_set s then s else s <| pq_set := true |> <| n_pq := S (n_pq s) |>.
+
+(** [ContactHandler.send_buffer_decreased] *)
+Definition send_buffer_decreased (buf_use : N) (s : ep) : ep :=
+  if buf_use <? 5 * seg_size s then pq_trigger s else s.
+
+(** [ContactHandler.is_sess_idle] *)
+Definition is_sess_idle (s : ep) : bool :=
+  is_nil (rx_buf s) && is_nil (msg_tx s)
+  && match rx_tmp s with None => true | Some _ => false end
+  && match tx_tmp s with None => true | Some _ => false end
+  && is_nil (pend_start s) && is_nil (pend_ack s).
+
+Definition check_sess_term (s : ep) : ep :=
+  if in_term s && is_sess_idle s then do_close s else s.
 
 Definition mem_N (k : N) (l : list N) : bool := existsb (N.eqb k) l.
 Fixpoint remove_N (k : N) (l : list N) : list N :=
@@ -303,12 +311,6 @@ Definition merge_session_params (s : ep) : res :=
       ok (s <| seg_size := N.min (c_seg_init (cf s)) (si_seg_mru peer) |>)
   | _, _ => raise EX_ATTRIBUTE s
   end.
-
-Definition flush_pend_start (s : ep) : ep :=
-  fold_left (fun s it =>
-               emit (ESig SigSendFinished [PStrNum (fst it); PInt 0; PStr RES_TERMINATING])
-                    (s <| tx_map := dict_del (fst it) (tx_map s) |>))
-            (pend_start s) (s <| pend_start := [] |>).
 
 Inductive outcome := Done | Reject (reason : N) | Escaped (kind : N).
 
